@@ -276,6 +276,7 @@ type stats struct {
 	PairsRun           int            `json:"pairs_run"`
 	Exhaustive         string         `json:"exhaustive_space"`
 	ErrClasses         map[string]int `json:"impl_error_kinds"`
+	Disagreements      []string       `json:"source_vs_package_disagreements,omitempty"`
 	Samples            []Case         `json:"samples"`
 }
 
@@ -310,6 +311,9 @@ func translate(coqDir, thriftgo, repo string) error {
 		return err
 	}
 	res := map[string]interface{}{"entries": len(t.Entries), "readme_options": len(d.Readme), "help_options": len(d.Help)}
+	if len(t.Disagreements) > 0 {
+		res["source_vs_package_disagreements"] = t.Disagreements
+	}
 	for _, f := range []struct{ name, text string }{
 		{"Gen/OptionsTable.v", opttable.RenderTable(t)},
 		{"Gen/OptionsDoc.v", opttable.RenderDoc(d)},
@@ -424,7 +428,7 @@ func main() {
 			c.Unexplained = append(c.Unexplained, "package_prefix")
 		}
 	}
-	st := &stats{Kinds: map[string]int{}, Gens: map[string]int{}, LenHist: map[int]int{}, ErrClasses: map[string]int{}, Options: len(t.Entries)}
+	st := &stats{Kinds: map[string]int{}, Gens: map[string]int{}, LenHist: map[int]int{}, ErrClasses: map[string]int{}, Options: len(t.Entries), Disagreements: t.Disagreements}
 	seen := map[string]bool{}
 	known := map[string]bool{}
 	for _, e := range t.Entries {
